@@ -382,7 +382,11 @@ class Interp:
         def f():
             fb = c.build_freeform(pts[0][0], pts[0][1], scale=scale)
             fb.add_line_segments([tuple(p) for p in pts[1:]] or [(pts[0][0] + 10, pts[0][1] + 10)], close=closed)
-            info.update(added=fb.convert_to_shape(), slide=sl, container=c, depth=d, kind="freeform")
+            first = fb.convert_to_shape()
+            if len(pts) % 3 == 0:
+                # the same builder converted again at another origin (a stamp): a second, separate shape
+                fb.convert_to_shape(origin_x=914400, origin_y=457200)
+            info.update(added=first, slide=sl, container=c, depth=d, kind="freeform")
         return self._call("add_freeform", f)
 
     def op_add_table(self, info, slide_i, r, cl, x, y, w, h):
